@@ -307,10 +307,13 @@ def main(tier, seed, only=None):
     ck.assume("reals, not floats", "unit quaternion away from gimbal lock (|q0 q2 - q1 q3| < 0.49)", "uniform symbolic wind",
               "trim loops unrolled: max_iterations = %d" % MAXIT, "nothing is claimed about the state after MaxIterationError")
     ck.out_of_claim("exports (STL/VTK/DXF/STP writers: C20)", "convergence of the trim iterations (C10)")
+    tasks = []
     for label, fn, mode in analyses(tier):
         if only and not any(o in label for o in only):
             continue
-        harness(ck, label, fn, mode)
+        tasks.append((label, lambda c, label=label, fn=fn, mode=mode: harness(c, label, fn, mode)))
+    from symx.harness import run_parallel
+    run_parallel(ck, tasks)
     ck.bound(aircraft="family member g5, N=8, concrete geometry", state="all symbolic (velocity, unit quaternion, position, rates, wind, controls, target CL)",
              loop_unrolling=MAXIT, max_paths=24)
     ck.rung("rung 1: stub-level harness for every analysis")
